@@ -1227,8 +1227,15 @@ impl Gen {
         _ => drop(self.emit("checksum crc32".to_string())),
       }
     }
-    for _ in 0..self.rng.range(1, 4) {
-      match self.rng.below(10) {
+    // every mutator must be refused: most of them are tried in every read-only session, in random order
+    let mut kinds: Vec<u64> = (0..10).collect();
+    for i in (1..kinds.len()).rev() {
+      let j = self.rng.below(i as u64 + 1) as usize;
+      kinds.swap(i, j);
+    }
+    kinds.truncate(self.rng.range(5, 10) as usize);
+    for k in kinds {
+      match k {
         0 | 1 => {
           let h = self.fresh_h();
           let n = self.rng.pick(&[0, 1, 8, 100]);
